@@ -48,7 +48,7 @@ ASSUMPTIONS = [
 ]
 BOUNDS = {
     "quick": {"valid_asts": 3000, "invalid_asts": 600, "layouts_per_ast": 8, "receivers": 3, "max_depth": 4, "shrink_cap": 150},
-    "thorough": {"valid_asts": 60000, "invalid_asts": 12000, "layouts_per_ast": 8, "receivers": 3, "max_depth": 4, "shrink_cap": 1000},
+    "thorough": {"valid_asts": 150000, "invalid_asts": 30000, "layouts_per_ast": 8, "receivers": 3, "max_depth": 4, "shrink_cap": 1000},
 }
 
 RECEIVERS = [
@@ -349,11 +349,12 @@ def plan(tier, seed, scale=1.0):
     nv = max(24, int(b["valid_asts"] * scale))
     ni = max(8, int(b["invalid_asts"] * scale))
     specs = []
-    for sh in range(24):
-        specs.append({"kind": "valid", "n": -(-nv // 24), "seed": derive_seed(seed, "valid", sh), "depth": (2, 3, 3)[sh % 3], "shrink_cap": b["shrink_cap"]})
-    for sh in range(8):
-        focus = ("value", "value", "kw", "top", None, "value", "kw", None)[sh]
-        specs.append({"kind": "invalid", "n": -(-ni // 8), "seed": derive_seed(seed, "invalid", sh), "focus": focus, "shrink_cap": b["shrink_cap"]})
+    k = 1 if tier == "quick" else 4  # more, smaller Hypothesis shards in the thorough tier (bounded memory per shard)
+    for sh in range(24 * k):
+        specs.append({"kind": "valid", "n": -(-nv // (24 * k)), "seed": derive_seed(seed, "valid", sh), "depth": (2, 3, 3)[sh % 3], "shrink_cap": b["shrink_cap"]})
+    for sh in range(8 * k):
+        focus = ("value", "value", "kw", "top", None, "value", "kw", None)[sh % 8]
+        specs.append({"kind": "invalid", "n": -(-ni // (8 * k)), "seed": derive_seed(seed, "invalid", sh), "focus": focus, "shrink_cap": b["shrink_cap"]})
     return specs
 
 
